@@ -1,7 +1,11 @@
 from . import hubprops
+from .. import scenarios
 
-hubprops.PLAN["C07"] = [{"fam": "Identity", "num_q": 60, "num_t": 600, "depth": 100},
-                       {"fam": "Routing", "num_q": 30, "num_t": 300, "depth": 80}]
+hubprops.PLAN["C07"] = [
+    {"fam": "Identity", "num_q": 40, "num_t": 600, "depth": 100},
+    {"fam": "Routing", "num_q": 40, "num_t": 400, "depth": 80},
+    {"fam": "leave-and-reuse", "scen": scenarios.leave_and_reuse, "num_q": 0, "num_t": 0, "prof_q": 2, "prof_t": 6},
+]
 
 
 def run(tier, seed):
